@@ -6,6 +6,7 @@ import "github.com/google/pprof/internal/graph"
 
 func init() {
 	vRegister("VerifC05Trim", VerifC05Trim)
+	vRegister("VerifC09NodeCount", VerifC09NodeCount)
 }
 
 func vAbs(x int64) int64 { return vIte(x < 0, -x, x) }
@@ -180,4 +181,22 @@ func VerifC05Trim() {
 		}
 	}
 	vObserve(len(g.Nodes), shownFlat)
+}
+
+// VerifC09NodeCount (property C09): no node count, however odd, crashes report generation.
+func VerifC09NodeCount() {
+	vp := vBuildA(vShapes[0], 1, vNames, vFiles, true)
+	for _, s := range vp.p.Sample {
+		vAssume(s.Value[0] > 0)
+		vAssume(s.Value[0] < 1<<20)
+	}
+	nc := vInt("nodecount")
+	vAssume(nc > -6)
+	vAssume(nc < 6)
+	format := []int{Text, Tree, Traces}[vChoice("format", 3)] // dot mode sorts by an entropy score (math.Log2: uninterpreted, slow queries)
+	o := &Options{OutputFormat: format, SampleType: "samples", SampleUnit: "count", SampleValue: func(v []int64) int64 { return v[0] }, NodeCount: nc}
+	rpt := New(vp.p, o)
+	g, _, _, _ := rpt.newTrimmedGraph()
+	vReach("C09.nodecount:returned")
+	vObserve(len(g.Nodes) >= 0)
 }
